@@ -57,6 +57,9 @@ def gen_cfg(r, i):
     if mode not in ("ramp", "degenerate") and r.random() < 0.3:
         cfg.update(target_efficiency=(float(r.choice([0.15, 0.3])), float(r.choice([0.6, 0.9]))),
                    target_efficiency_rate=float(r.choice([0.25, 1.0, 3.0])))
+    if mode in ("adaptive", "fixed") and r.random() < 0.4:
+        # a proposal that (almost) is the posterior: incremental weights uniform to 1e-5 .. 1e-9 (tiny per-step variances)
+        cfg["like_width"] = float(10 ** r.uniform(3, 5))
     if r.random() < 0.3:      # unnormalised likelihood: a large common offset of every log-likelihood value
         cfg["like_offset"] = float(r.choice([-1e5, -2e3, 3e3, 1e6]))
     if mode == "final" or r.random() < 0.25:
